@@ -361,3 +361,43 @@ def closure_heavy(rng, levels=None):
     nargs = len(p.split(",")) if p else 0
     return ("function root(%s) { %s }\nlog('root', root(%s));\nlog('again', root());\n'done';"
             % (p, b, ", ".join(str(i * 10) for i in range(nargs))))
+
+
+# ---------- hoisting: function declarations anywhere among the statements of a body -------------------------------
+def hoisting_program(rng):
+    """A body (program, function body, arrow block body, nested function) whose function declarations sit at random positions
+    among statements that use them before and after: typeof, calls, closures calling later siblings, a var of the same name,
+    a name declared twice."""
+    k = rng.randint(1, 5)
+    m = rng.randint(1, 5)
+    names = ["h%d" % i for i in range(k)]
+    items = []
+    for i, nm in enumerate(names):
+        other = rng.choice(names)
+        body = rng.choice(["return %d;" % i, "return typeof %s + ':%d';" % (other, i), "return '%d>' + (n > 0 ? %s(n - 1) : 'end');" % (i, other), "log('in', '%s'); return %d;" % (nm, i)])
+        items.append("function %s(n) { %s }" % (nm, body))
+    if rng.random() < 0.3:
+        dup = rng.choice(names)
+        items.append("function %s(n) { return 'second-%s'; }" % (dup, dup))
+    for j in range(m):
+        nm = rng.choice(names)
+        items.append(rng.choice([
+            "log('s%d', typeof %s, %s);" % (j, nm, ", ".join("typeof " + x for x in names)),
+            "log('c%d', %s(2));" % (j, nm),
+            "var later%d = function () { return %s(1); }; log('l%d', later%d());" % (j, nm, j, j),
+            "var %s_copy%d = %s; log('v%d', typeof %s_copy%d);" % (nm, j, nm, j, nm, j),
+            "if (typeof %s === 'function') { log('t%d', %s(0)); }" % (nm, j, nm),
+            "var %s = %d; log('shadow%d', typeof %s);" % (nm, j, j, nm) if rng.random() < 0.3 else "log('p%d', %s.length, %s.name);" % (j, nm, nm),
+        ]))
+    rng.shuffle(items)
+    body = "\n".join(items)
+    place = rng.random()
+    if place < 0.35:
+        return body + "\nlog('END');"
+    if place < 0.6:
+        return "function outer() {\n" + body + "\nreturn 'r';\n}\nlog('o', outer());\nlog('END');"
+    if place < 0.75:
+        return "var outer = () => {\n" + body + "\nreturn 'r';\n};\nlog('o', outer());\nlog('END');"
+    if place < 0.9:
+        return "function a() { function b() {\n" + body + "\nreturn 'r'; } return b(); }\nlog('o', a());\nlog('END');"
+    return "log('o', (function () {\n" + body + "\nreturn 'r';\n})());\nlog('END');"
